@@ -48,9 +48,20 @@ def workdir(name, clean=True):
 # --------------------------------------------------------------------------------------------
 # cargo
 # --------------------------------------------------------------------------------------------
-def cargo_build(bins, package="vh", release=False, features=None, timeout=1800):
+def cargo_build(bins, package="vh", release=False, features=None, timeout=1800, workspace=None, target="target"):
     """Builds harness binaries from /repo's *current working tree* (path dependencies).
     Returns {bin: path}.  A compile error is a tool error (exit 2), not a verdict."""
+    global HARNESS
+    saved = HARNESS
+    if workspace is not None:
+        HARNESS = Path(workspace)
+    try:
+        return _cargo_build(bins, package, release, features, timeout, target)
+    finally:
+        HARNESS = saved
+
+
+def _cargo_build(bins, package, release, features, timeout, target):
     if not (HARNESS / "Cargo.lock").exists():
         shutil.copy("/repo/Cargo.lock", HARNESS / "Cargo.lock")
     cmd = ["cargo", "build", "--offline", "-p", package]
@@ -68,7 +79,7 @@ def cargo_build(bins, package="vh", release=False, features=None, timeout=1800):
         log(p.stderr[-8000:])
         raise ToolError("cargo build failed for %s" % (bins,))
     log("[cargo] built %s in %.1fs" % (",".join(bins), time.time() - t0))
-    d = HARNESS / "target" / ("release" if release else "debug")
+    d = (HARNESS / target).resolve() / ("release" if release else "debug")
     return {b: str(d / b) for b in bins}
 
 
